@@ -3,9 +3,10 @@ import Sebuf.OpenApi
 import Sebuf.OaComp
 import Sebuf.OaEmit
 import Sebuf.DriverSchema
+import Sebuf.OaSchema
 namespace Sebuf.Driver
 
-instance : Inhabited Sebuf.Json := ⟨Sebuf.Json.null⟩
+instance instInhabitedJsonOA : Inhabited Sebuf.Json := ⟨Sebuf.Json.null⟩
 
 /-- Lean.Json → model Json: integers stay exact; other numbers become float tokens. -/
 partial def ofLeanJson : Lean.Json → Sebuf.Json
@@ -35,7 +36,8 @@ def opSchemaValid (j : Lean.Json) : Lean.Json :=
   Lean.Json.mkObj [("results", Lean.Json.arr (insts.map fun i =>
     let fuel := Schema.defaultFuel comps schema i
     Lean.Json.mkObj [("valid", Lean.Json.bool (Schema.valid comps fuel schema i)),
-      ("undeclared", strArr (Schema.undeclared comps fuel schema i))]).toArray)]
+      ("undeclared", strArr (Schema.undeclaredDeep comps fuel [schema] i []).eraseDups),
+      ("failing", strArr (Schema.failingPaths comps fuel [schema] i []).eraseDups)]).toArray)]
 
 
 def evArr (l : List OaComp.Ev) : Lean.Json := Lean.Json.arr (l.map fun e => Lean.Json.arr #[jstr e.1, jstr e.2]).toArray
@@ -66,5 +68,16 @@ def opYaml11 (j : Lean.Json) : Lean.Json :=
   Lean.Json.mkObj [("keys", Lean.Json.arr (ss.map fun s => Lean.Json.str (OaEmit.jsonRenderKey s)).toArray),
     ("retyped", Lean.Json.arr (ss.map fun s => Lean.Json.bool (OaEmit.yaml11Bool s).isSome).toArray),
     ("crashes", Lean.Json.bool (OaEmit.jsonRenderCrashes ss))]
+
+
+/-- predicted component schema of a message (Impl model of the OpenAPI generator). -/
+def opOaSchema (j : Lean.Json) : Lean.Json :=
+  let rq := requestOf (j.getObjValD "model")
+  Lean.Json.arr ((getStrList j "messages").map fun full =>
+    match rq.findMessage full with
+    | none => Lean.Json.mkObj [("full", jstr full), ("modelled", Lean.Json.bool false)]
+    | some m => Lean.Json.mkObj [("full", jstr full), ("modelled", Lean.Json.bool (OaSchema.modelled m)),
+        ("schema", toLeanJson (OaSchema.messageSchema rq m))]).toArray |> fun a => Lean.Json.mkObj [("schemas", a),
+    ("builtin", Lean.Json.mkObj (OaSchema.builtinComponents.map fun c => (String.ofList c.1, toLeanJson c.2)))]
 
 end Sebuf.Driver
